@@ -121,7 +121,7 @@ CHECKS["C14"] = {
     "rule": "a case = generated configuration + 1..12 writes. Non-trivial = a write under a set with overridden r/p or threads>1, or with a password >64 bytes or non-UTF-8; "
             "distinct = distinct (alg, override class, parameter values, password class, op)",
     "assumptions": [],
-    "required_classes": {"all": ["write:hmac_sha256_scrypt:override-rp", "write:hmac_sha256_scrypt:default-rp", "write:argon2id:threads>1", "salts-compared-across-processes"]},
+    "required_classes": {"all": ["write:update-with-unchanged-password", "record-aged-before-next-write", "write:hmac_sha256_scrypt:override-rp", "write:hmac_sha256_scrypt:default-rp", "write:argon2id:threads>1", "salts-compared-across-processes"]},
     "jobs": [
         J("records", VSTORE, "TestC14Records|TestC14SaltSpread", {"shards": 8, "checks": 150}, {"shards": 16, "checks": 4000}),
         J("saltxproc", VSTORE, "TestC14SaltAcrossProcesses", {"shards": 1, "n": 4}, {"shards": 1, "n": 16}, rapid=False),
@@ -247,7 +247,7 @@ CHECKS["C19"] = {
     "rule": "a case = one hooks directory + one event pattern. Non-trivial = >= 2 notifications inside one interval or one within 1 ms of a timer edge; distinct = distinct "
             "(per-interval count vector, edge flag, directory contents, world-writable, level, number of rounds)",
     "assumptions": ["the implementation's pending counter is never consulted by the oracle"],
-    "required_classes": {"all": ["pattern:>=2-notifications-in-one-interval-or-within-1ms-of-the-timer", "case:eligible-hooks-and-notifications", "dir:world-writable", "level:agent=true", "level:agent=false"]},
+    "required_classes": {"all": ["second-change-made-while-a-round-was-starting", "pattern:>=2-notifications-in-one-interval-or-within-1ms-of-the-timer", "case:eligible-hooks-and-notifications", "dir:world-writable", "level:agent=true", "level:agent=false"]},
     "jobs": [
         J("hooks", AGENT, "TestC19Hooks", {"shards": 8, "checks": 40}, {"shards": 16, "checks": 1500}, toolchain="go126"),
     ],
